@@ -385,6 +385,11 @@ def run(model: RepoModel, rep, tier: str):
         else:
             rep.holds("C04.R6", key, FILE, h.node.lineno, f"{len(frontier_vars)} frontier variable(s); no filter, no drop, no mutation under forward iteration")
 
+    # ------------------------------------------------------------------ R7 (cross-cutting accumulator discipline, sa/generic.py)
+    from ..generic import check_accumulators
+    check_accumulators(model, rep, "C04.R7", [FILE], C04_ADJUDICATED,
+                       "the statements whose frontier was not collected get no outgoing edge, so an execution that leaves them has no path in the CFG", 3)
+
     # ------------------------------------------------------------------ R5
     # The walkers take ``special_stmts=[]``.  analyze() relies on that default, so stray break/continue statements
     # accumulate in a list shared by every method analysed in the process.  That is inert as long as the walkers hand the
@@ -438,7 +443,18 @@ def _is_attr(name):
 
 from .c02 import _rename_attr, _rename_op  # noqa: E402  (shared AST-located frontend mutators)
 
+C04_ADJUDICATED = {
+    "basics/control_flow.py::ControlFlowAnalysis.analyze_init_block::last_parameter_init_stmts::break under `not previous`":
+        "a handler returned a negative boundary with an empty frontier: the block ended in return/break/continue, nothing follows (fix fe58859)",
+    "basics/control_flow.py::ControlFlowAnalysis.analyze_init_block::last_parameter_decl_stmts::break under `not previous`":
+        "same statement as above (the loop grows two frontiers)",
+}
+
 MUTANTS = [
+    ("switch-stops-after-first-case", FILE,
+     lambda src: __import__("sa.mutate", fromlist=["x"]).text_replace(src, "            last_stmts_of_previous_body = self.analyze_block(case_body, last_stmts_of_previous_body, special_stmts)\n",
+                                                                     "            last_stmts_of_previous_body = self.analyze_block(case_body, last_stmts_of_previous_body, special_stmts)\n            if not last_stmts_of_previous_body:\n                break\n"),
+     "C04.R7"),
     ("empty-frontier-resurrected", FILE,
      lambda src: __import__("sa.mutate", fromlist=["x"]).text_replace(src, "                last_stmts_of_then_body = self.analyze_block(then_body, last_stmts_of_then_body, global_special_stmts)",
                                                                      "                last_stmts_of_then_body = self.analyze_block(then_body, last_stmts_of_then_body, global_special_stmts) or last_stmts_of_then_body"),
